@@ -1,4 +1,4 @@
-import OsacaVerif.Lemmas.A64ListCov
+import OsacaVerif.Lemmas.A64DomainSound
 import OsacaVerif.Lemmas.A64File
 /-
   C10 — AArch64 parser recovers every line and operand exactly as written.
@@ -291,12 +291,8 @@ theorem a64_roundtrip (a : InstrA) (gaps : List Txt) (hok : InstrOk a)
     parseLine (render a gaps) = .ok (expectLine a) :=
   roundtrip_covered a gaps hok (opsCovered_of_kinds true a.ops hkinds) hl
 
-/-- executable check of `LayoutOk` (for examples) -/
-def layoutOkB : List Piece → List Txt → Bool
-  | [], gs => match gs with | [g] => g.all isBlankC | _ => false
-  | p :: ps, g :: gs => g.all isBlankC && (p.2 != 2 || !g.isEmpty) && layoutOkB ps gs
-  | _ :: _, [] => false
-
+/-! ### executable domain test (evaluated by the driver on every generated AST) -/
+open OsacaVerif.ParseA64.Domain in
 theorem layoutOkB_sound (ps : List Piece) (gs : List Txt) (h : layoutOkB ps gs = true) : LayoutOk ps gs := by
   induction ps generalizing gs with
   | nil =>
@@ -311,12 +307,92 @@ theorem layoutOkB_sound (ps : List Piece) (gs : List Txt) (h : layoutOkB ps gs =
       have := h.1.2
       simp [hp, hg] at this
 
--- non-vacuity: a concrete instruction, layout and the resulting line
+open OsacaVerif.ParseA64.Domain in
+theorem opOkB_sound (last fst : Bool) (o : OpA) (h : opOkB last fst o = true) : CoveredKind last fst o := by
+  match o, h with
+  | .reg (.scalar p n), h => exact .scalar last fst p n h
+  | .reg (.alias t), h => exact .alias last fst t (by simpa [opOkB, aliasTextsB, aliasTexts] using h)
+  | .reg (.vec p n lanes shape idx), h =>
+    simp only [opOkB, Bool.and_eq_true] at h
+    exact .vec last fst p n lanes shape idx h.1.1 (lanesOkB_sound _ h.1.2) (shapeOkB_sound _ h.2)
+  | .reg (.pred p n tail), h =>
+    simp only [opOkB, Bool.and_eq_true, beq_iff_eq] at h
+    exact .pred last fst p n tail h.1 (predTailOkB_sound _ h.2)
+  | .list es idx, h =>
+    simp only [opOkB, Bool.and_eq_true] at h
+    match es, h with
+    | e0 :: es', h =>
+      exact .list last fst e0 es' idx (fun e he => elemOkB_sound e (List.all_eq_true.mp h.2 e he))
+  | .range first b idx, h => exact .range last fst first b idx (elemOkB_sound first h)
+  | .int i, _ => exact .int last fst i
+  | .flt hash neg ip fp e f, h =>
+    simp only [opOkB, Bool.and_eq_true] at h
+    exact .flt last fst hash neg ip fp e f
+      ⟨digitsB_sound _ h.1.1.1, digitsB_sound _ h.1.1.2, expOkB_sound _ h.1.2, fOkB_sound _ h.2⟩
+  | .shimm hash hex v op ah amt, h =>
+    exact .shimm last fst hash hex v op ah amt (by simpa [opOkB, scaleOpsB, scaleOps] using h)
+  | .cond c, h =>
+    simp only [opOkB, Bool.and_eq_true, Bool.not_eq_true'] at h
+    have hf : fst = false := h.1
+    subst hf
+    exact .cond last c (by simpa [condLitsB, condLits] using h.2)
+  | .ident i, h => exact .ident last fst i (identOkB_sound i h)
+  | .prf t g p, h =>
+    simp only [opOkB, Bool.and_eq_true] at h
+    have hf : fst = true := h.1.1.1
+    subst hf
+    exact .prf last t g p (by simpa [prfT] using h.1.1.2) (by simpa [prfG] using h.1.2) (by simpa [prfP] using h.2)
+  | .mem m, h =>
+    simp only [opOkB, Bool.and_eq_true] at h
+    have hl : last = true := h.1
+    subst hl
+    exact .mem fst m (memOkB_sound m h.2)
+
+open OsacaVerif.ParseA64.Domain in
+theorem kindsOkB_sound (fst : Bool) (os : List OpA) (h : kindsOkB fst os = true) : KindsOk fst os := by
+  induction os generalizing fst with
+  | nil => trivial
+  | cons o os ih =>
+    simp only [kindsOkB, Bool.and_eq_true] at h
+    exact ⟨opOkB_sound _ fst o h.1, ih false h.2⟩
+
+open OsacaVerif.ParseA64.Domain in
+theorem instrOkB_sound (a : InstrA) (h : instrOkB a = true) : InstrOk a := by
+  simp only [instrOkB, Bool.and_eq_true, decide_eq_true_eq] at h
+  obtain ⟨⟨h1, h2⟩, h3⟩ := h
+  refine ⟨?_, h2, ?_⟩
+  · cases hm : a.mn with
+    | nil => rw [hm] at h1; cases h1
+    | cons m ms =>
+      rw [hm] at h1
+      simp only [Bool.and_eq_true, bne_iff_ne, ne_eq] at h1
+      exact ⟨m, ms, rfl, fun c hc => List.all_eq_true.mp h1.1 c hc, h1.2⟩
+  · cases hc : a.comment with
+    | none => trivial
+    | some ws =>
+      rw [hc] at h3
+      intro w hw
+      have := List.all_eq_true.mp h3 w hw
+      simp only [wordOkB, Bool.and_eq_true] at this
+      exact ⟨by intro e; subst e; simp at this, fun c hc' => List.all_eq_true.mp this.2 c hc'⟩
+
+open OsacaVerif.ParseA64.Domain in
+/-- **a64_roundtrip, checkable form**: whenever the executable test `Domain.inDomain` accepts an AST and
+    its layout (the harness evaluates it on every generated line and reports the share), the model parses
+    the rendered line to exactly what was written. -/
+theorem a64_roundtrip_checked (a : InstrA) (gaps : List Txt) (h : inDomain a gaps = true) :
+    parseLine (render a gaps) = .ok (expectLine a) := by
+  simp only [inDomain, Bool.and_eq_true] at h
+  exact a64_roundtrip a gaps (instrOkB_sound a h.1.1) (kindsOkB_sound true a.ops h.1.2) (layoutOkB_sound _ _ h.2)
+
+open OsacaVerif.ParseA64.Domain
+
+-- non-vacuity: concrete instructions and layouts inside the domain, and the resulting lines
 example :
     let a : InstrA := ⟨ofString "madd", [.reg (.scalar 120 0), .reg (.scalar 87 12), .int ⟨true, true, true, false, 255⟩,
       .int ⟨false, false, false, false, 7⟩], some [ofString "c1", ofString "c2"]⟩
     let gaps : List Txt := [[9], [32], [], [32], [], [], [32, 32], [9], [32], [], [32], [9]]
-    layoutOkB (linePieces a) gaps = true ∧ render a gaps = ofString "\tmadd x0, W12,#-0xff  ,\t7 //c1 c2\t" ∧
+    inDomain a gaps = true ∧ render a gaps = ofString "\tmadd x0, W12,#-0xff  ,\t7 //c1 c2\t" ∧
     parseLine (render a gaps) = .ok (expectLine a) := by decide +kernel
 
 -- a memory reference with a scaled index, pre-index; a vector element and a condition code
@@ -324,7 +400,7 @@ example :
     let a : InstrA := ⟨ofString "ldr", [.reg (.vec 86 3 (some [52]) (some 83) (some 1)), .cond (ofString "Eq"),
       .mem ⟨.alias (ofString "SP"), .idx (.scalar 119 2) (some ⟨ofString "SXTW", some (true, 3)⟩), true, none⟩], none⟩
     let gaps : List Txt := [[], [32], [], [9], [], [32], [32], [32], [], [32], [32], [9], [32], [32], [32]]
-    layoutOkB (linePieces a) gaps = true ∧ render a gaps = ofString "ldr V3.4S[1],\tEq, [ SP ,w2 , SXTW\t#3 ] ! " ∧
+    inDomain a gaps = true ∧ render a gaps = ofString "ldr V3.4S[1],\tEq, [ SP ,w2 , SXTW\t#3 ] ! " ∧
     parseLine (render a gaps) = .ok (expectLine a) ∧
     (match expectLine a with | .instr _ [_, _, .mem m] _ => m.scale | _ => 0) = 8 := by decide +kernel
 
